@@ -10,7 +10,7 @@ from ..seed import digest
 
 ID = "C11"
 ENVS = ["absent"]
-RUNS = {"quick": 64000, "thorough": 640000}
+RUNS = {"quick": 128000, "thorough": 1280000}
 RULE = ("case = (dataset with insertion orders, valid scheme, list of pivot schedules | sweep of the whole "
         "pivot-choice tree); distinct = distinct case digest; non-trivial = at least one recursion step compared "
         "an element with a pivot (universe >= 2)")
